@@ -168,12 +168,30 @@ Definition ctrl_trace_discount (k : okind) (lam eps : Q) (nA : nat) (a maxA : na
   | KImportance => prob / mu
   end.
 
-(* src: include/AIToolbox/MDP/Algorithms/Utils/OffPolicyTemplate.hpp:OffPolicyControl::stepUpdateQ *)
-Definition offctrl_step (k : okind) (alpha g lam tol eps : Q) (nA : nat)
+(* src: include/AIToolbox/MDP/Algorithms/Utils/OffPolicyTemplate.hpp:OffPolicyControl::stepUpdateQ
+   AS IT STANDS in /repo ("legacy"): the greedy action handed to getTraceDiscount is the one found
+   by the scan of row s1, although getTraceDiscount compares it with the action a taken in s (the
+   header documents maxA as "the already computed best greedy action for state s").
+   Kept for the refutation theorem and for classifying the unrepaired implementation. *)
+Definition offctrl_step_legacy (k : okind) (alpha g lam tol eps : Q) (nA : nat)
            (st : qtab * list trace) (e : nat * nat * nat * Q * Q) : qtab * list trace :=
   let '(s, a, s1, r, mu) := e in
   let q := fst st in
   let '(sm, maxA, maxV) := greedy_scan (row q s1) in
+  let expectedQ := sm * (eps / inject_Z (Z.of_nat nA)) + (1 - eps) * maxV in
+  let err := alpha * (r + g * expectedQ - qget q s a) in
+  let td := g * ctrl_trace_discount k lam eps nA a maxA mu in
+  update_traces s a err td tol st.
+
+(* src: OffPolicyControl::stepUpdateQ REPAIRED (fixes/C11-offpolicy-trace-state.patch): the expected
+   backup still scans row s1; the greedy action for the trace discount is the first maximum of row s,
+   i.e. the trace is cut with the epsilon-greedy target probability of the pair (s,a) that was acted. *)
+Definition offctrl_step (k : okind) (alpha g lam tol eps : Q) (nA : nat)
+           (st : qtab * list trace) (e : nat * nat * nat * Q * Q) : qtab * list trace :=
+  let '(s, a, s1, r, mu) := e in
+  let q := fst st in
+  let '(sm, _, maxV) := greedy_scan (row q s1) in
+  let maxA := fst (argmax (row q s)) in
   let expectedQ := sm * (eps / inject_Z (Z.of_nat nA)) + (1 - eps) * maxV in
   let err := alpha * (r + g * expectedQ - qget q s a) in
   let td := g * ctrl_trace_discount k lam eps nA a maxA mu in
@@ -229,19 +247,40 @@ Fixpoint q_bump (qu : list (nat * nat * Q)) (k : nat * nat) (d : Q) : list (nat 
   end.
 
 (* src: include/AIToolbox/MDP/Algorithms/PrioritizedSweeping.hpp:PrioritizedSweeping::stepUpdateQ
-   (IsModelEigen branch: R(s,a) + T(a).row(s).dot(values * discount)) *)
-Definition ps_step (m : mdp) (theta : Q) (st : ps_state) (s a : nat) : ps_state :=
+   [bk v] = the new value of qfun_(s,a) computed from the values v (the two constexpr branches differ
+   only there); [tp ss a'] = model_.getTransitionProbability(ss, a', s) *)
+Definition ps_step_with (bk : vec -> Q) (tp : nat -> nat -> Q) (nS nA : nat) (theta : Q)
+           (st : ps_state) (s a : nat) : ps_state :=
   let v := ps_v st in
-  let q' := upd2 (ps_q st) s a (nthq (row (R m) s) a + dot (trow m s a) (vscale (gam m) v)) in
+  let q' := upd2 (ps_q st) s a (bk v) in
   let '(am, vm) := argmax (row q' s) in
   let vnew := Qred vm in
   let p := qabs (vnew - nthq v s) in
   let qu' := fold_left (fun qu k =>
-                 let delta := p * nthq (trow m (fst k) (snd k)) s in
+                 let delta := p * tp (fst k) (snd k) in
                  if Qlt_le_dec theta delta then q_bump qu k delta else qu)
-               (list_prod (seq 0 (nS m)) (seq 0 (nA m))) (ps_queue st) in
+               (list_prod (seq 0 nS) (seq 0 nA)) (ps_queue st) in
   {| ps_q := q'; ps_v := upd v s vnew; ps_acts := upd (ps_acts st) s am;
      ps_queue := qu'; ps_done := (s, a) :: ps_done st |}.
+
+(* IsModelEigen branch: R(s,a) + T(a).row(s).dot(values * discount) *)
+Definition ps_step (m : mdp) (theta : Q) (st : ps_state) (s a : nat) : ps_state :=
+  ps_step_with (fun v => nthq (row (R m) s) a + dot (trow m s a) (vscale (gam m) v))
+               (fun ss a' => nthq (trow m ss a') s) (nS m) (nA m) theta st s a.
+
+(* a model that only answers probability / reward queries (IsModel but not IsModelEigen):
+   tables indexed s, a, s1 *)
+Record gmodel := { gS : nat; gA : nat; gT : list (list vec); gRw : list (list vec); ggam : Q }.
+Definition g_tp (g : gmodel) (s a s1 : nat) : Q := nthq (nth a (nth s (gT g) []) []) s1.
+Definition g_rw (g : gmodel) (s a s1 : nat) : Q := nthq (nth a (nth s (gRw g) []) []) s1.
+(* the non-Eigen branch: for s1 = 0..S-1, if checkDifferentSmall(p, 0.0):
+   newQValue += p * (getExpectedReward(s,a,s1) + discount * values[s1]) *)
+Definition ne_backup (g : gmodel) (v : vec) (s a : nat) : Q :=
+  fold_left (fun acc s1 => let p := g_tp g s a s1 in
+                           if negb (eqSmall p 0) then acc + p * (g_rw g s a s1 + ggam g * nthq v s1) else acc)
+            (seq 0 (gS g)) 0.
+Definition ps_step_ne (g : gmodel) (theta : Q) (st : ps_state) (s a : nat) : ps_state :=
+  ps_step_with (fun v => ne_backup g v s a) (fun ss a' => g_tp g ss a' s) (gS g) (gA g) theta st s a.
 
 Definition q_remove (qu : list (nat * nat * Q)) (k : nat * nat) : list (nat * nat * Q) :=
   filter (fun e => negb (pair_eqb (fst e) k)) qu.
@@ -259,7 +298,8 @@ Inductive ps_result := PsOk (st : ps_state) | PsBadChoice.
 (* src: include/AIToolbox/MDP/Algorithms/PrioritizedSweeping.hpp:PrioritizedSweeping::batchUpdateQ
    [n] = N; [choices] = the pairs returned by queue_.top() (any maximal element on ties).
    A choice that is not a maximal queued pair, or a missing choice, yields PsBadChoice. *)
-Fixpoint ps_batch (m : mdp) (theta : Q) (n : nat) (st : ps_state) (choices : list (nat * nat)) : ps_result :=
+Fixpoint ps_batch_with (step : ps_state -> nat -> nat -> ps_state) (n : nat) (st : ps_state)
+         (choices : list (nat * nat)) : ps_result :=
   match n with
   | O => PsOk st
   | S n' =>
@@ -272,8 +312,77 @@ Fixpoint ps_batch (m : mdp) (theta : Q) (n : nat) (st : ps_state) (choices : lis
         if is_top (ps_queue st) k then
           let st1 := {| ps_q := ps_q st; ps_v := ps_v st; ps_acts := ps_acts st;
                         ps_queue := q_remove (ps_queue st) k; ps_done := ps_done st |} in
-          ps_batch m theta n' (ps_step m theta st1 (fst k) (snd k)) rest
+          ps_batch_with step n' (step st1 (fst k) (snd k)) rest
         else PsBadChoice
       end
     end
   end.
+Definition ps_batch (m : mdp) (theta : Q) := ps_batch_with (ps_step m theta).
+Definition ps_batch_ne (g : gmodel) (theta : Q) := ps_batch_with (ps_step_ne g theta).
+Definition ps_init_g (g : gmodel) : ps_state :=
+  {| ps_q := qzero (gS g) (gA g); ps_v := vzero (gS g); ps_acts := repeat O (gS g);
+     ps_queue := []; ps_done := [] |}.
+
+(* ------------------------------------------------------------------ SARSAL with its run-time setters *)
+(* SARSAL caches gammaL_ = lambda_ * discount_; both setLambda and setDiscount recompute it. *)
+Record sl_par := { sl_alpha : Q; sl_g : Q; sl_lam : Q; sl_gl : Q; sl_tol : Q }.
+(* src: src/MDP/Algorithms/SARSAL.cpp:SARSAL::SARSAL (setDiscount, setLearningRate, setLambda, setTolerance:
+   the last write of gammaL_ is setLambda's, lambda * discount) *)
+Definition sl_ctor (alpha g lam tol : Q) : sl_par :=
+  {| sl_alpha := alpha; sl_g := g; sl_lam := lam; sl_gl := lam * g; sl_tol := tol |}.
+(* src: SARSAL::setDiscount *)
+Definition sl_set_discount (p : sl_par) (d : Q) : sl_par :=
+  {| sl_alpha := sl_alpha p; sl_g := d; sl_lam := sl_lam p; sl_gl := sl_lam p * d; sl_tol := sl_tol p |}.
+(* src: SARSAL::setLambda *)
+Definition sl_set_lambda (p : sl_par) (l : Q) : sl_par :=
+  {| sl_alpha := sl_alpha p; sl_g := sl_g p; sl_lam := l; sl_gl := l * sl_g p; sl_tol := sl_tol p |}.
+(* src: SARSAL::setLearningRate / setTolerance *)
+Definition sl_set_alpha (p : sl_par) (a : Q) : sl_par :=
+  {| sl_alpha := a; sl_g := sl_g p; sl_lam := sl_lam p; sl_gl := sl_gl p; sl_tol := sl_tol p |}.
+Definition sl_set_tol (p : sl_par) (t : Q) : sl_par :=
+  {| sl_alpha := sl_alpha p; sl_g := sl_g p; sl_lam := sl_lam p; sl_gl := sl_gl p; sl_tol := t |}.
+(* src: SARSAL::stepUpdateQ reading the members (traces decay with the cached gammaL_) *)
+Definition sarsal_step_p (p : sl_par) (st : qtab * list trace) (e : nat * nat * nat * nat * Q)
+  : qtab * list trace :=
+  let '(s, a, s1, a1, r) := e in
+  let q := fst st in
+  let err := sl_alpha p * (r + sl_g p * qget q s1 a1 - qget q s a) in
+  update_traces s a err (sl_gl p) (sl_tol p) st.
+
+Inductive sl_op :=
+| SlStep (e : nat * nat * nat * nat * Q)
+| SlLambda (l : Q) | SlDiscount (d : Q) | SlAlpha (a : Q) | SlTol (t : Q).
+Definition sl_apply (x : sl_par * (qtab * list trace)) (o : sl_op) : sl_par * (qtab * list trace) :=
+  let '(p, st) := x in
+  match o with
+  | SlStep e => (p, sarsal_step_p p st e)
+  | SlLambda l => (sl_set_lambda p l, st)
+  | SlDiscount d => (sl_set_discount p d, st)
+  | SlAlpha a => (sl_set_alpha p a, st)
+  | SlTol t => (sl_set_tol p t, st)
+  end.
+
+(* ------------------------------------------------------------------ Dyna2 *)
+(* state: parameters and (table, traces) of permanentLearning_ and transientLearning_ *)
+Definition d2_state := ((sl_par * (qtab * list trace)) * (sl_par * (qtab * list trace)))%type.
+(* src: include/AIToolbox/MDP/Algorithms/Dyna2.hpp:Dyna2::stepUpdateQ *)
+Definition d2_step (st : d2_state) (e : nat * nat * nat * nat * Q) : d2_state :=
+  let '((pp, (qp, trp)), (pt, (qt, _))) := st in
+  ((pp, sarsal_step_p pp (qp, trp) e), (pt, sarsal_step_p pt (qt, trp) e)).
+(* src: Dyna2::batchUpdateQ.  [a0] = first sampled action; each draw = (s1, rew, a1, terminal?, the action
+   re-sampled at initS when s1 is terminal) for one of the N iterations *)
+Fixpoint d2_batch_loop (pt : sl_par) (tr : qtab * list trace) (initS s a : nat)
+         (draws : list (nat * Q * nat * bool * nat)) : qtab * list trace :=
+  match draws with
+  | [] => tr
+  | (s1, rew, a1, term, ar) :: rest =>
+    let tr' := sarsal_step_p pt tr (s, a, s1, a1, rew) in
+    if term then d2_batch_loop pt tr' initS initS ar rest
+    else d2_batch_loop pt tr' initS s1 a1 rest
+  end.
+Definition d2_batch (st : d2_state) (initS a0 : nat) (draws : list (nat * Q * nat * bool * nat)) : d2_state :=
+  let '(perm, (pt, (qt, _))) := st in
+  (perm, (pt, d2_batch_loop pt (qt, []) initS initS a0 draws)).
+(* src: Dyna2::resetTransientLearning *)
+Definition d2_reset (st : d2_state) : d2_state :=
+  let '((pp, (qp, trp)), (pt, (_, trt))) := st in ((pp, (qp, trp)), (pt, (qp, trt))).
